@@ -28,7 +28,7 @@ ASSUMPTIONS = [
     "payload objects have unique keys (serde_json::Map); a command line with duplicate keys keeps the last one and is outside the model",
     "time strings: Model/Time.v (C16) models chrono by hand; the oracle's ground truth covers strict RFC 3339, YYYY-MM-DD and decimal integers, which is what the generator places in time slots",
     "the command-line model covers payload texts that are valid JSON objects; the tokenizer/PEG front is modelled only through brace balance and '+' in exponents",
-    "engine level: memtable sized so that nothing flushes during a run (reads after a flush are C03/C07's subject)",
+    "engine level: every case is read back from a memtable that never fills and again from a 4-event memtable (flushes to segments); restart and compaction are other properties' subject",
 ]
 TRUSTED = [
     "Coq 8.16.1 kernel + coqc; vm_compute for closed witnesses; no native_compute",
@@ -352,6 +352,8 @@ def judge(c, impl, lenient=False):
         want = ("O " if d[1] else "P ") + d[0]
         return None if impl == want else f"spec {spec!r} declares {want} but the code resolves it to {impl}"
     o = parse_out(impl)
+    if "FLUSH" in o:
+        return f"the same history answers differently when the memtable flushes: {o['FLUSH']}"
     S, V, C = o.get("S"), o.get("V"), o.get("C", "")
     if probe == "store_redef":
         f1, f2 = un_sch(line[1]), un_sch(line[2])
@@ -663,7 +665,7 @@ IDENT = re.compile(r"^[a-zA-Z_][a-zA-Z0-9_-]*$")
 
 
 def cases(rng, tier):
-    scale = 1 if tier == "quick" else 30
+    scale = 1 if tier == "quick" else 150
     out = []
 
     def add(kind, line, show, types=None, mut=None):
@@ -744,14 +746,21 @@ def cases(rng, tier):
     return out
 
 
-def run_sides(cases_, model_ok, tmo=1500):
+def run_sides(cases_, model_ok, tmo=1700):
+    """Implementation side twice - once with a memtable that never fills, once with a 4-event memtable so that
+    the reads cross flushes (passive buffers, segments); a case whose two answers differ gets ' FLUSH=<answer>'
+    appended, which both the diff and the oracle report."""
     lines = [c["line"] for c in cases_]
     os.makedirs(vlib.WORK, exist_ok=True)
     d = tempfile.mkdtemp(prefix="c06-", dir=vlib.WORK)
     try:
-        impl = vlib.run_lines(vlib.VHARN, ["fn"], lines, timeout=tmo, env={"VHARN_STORE_DIR": d})
+        impl = vlib.run_lines(vlib.VHARN, ["fn"], lines, timeout=tmo, env={"VHARN_STORE_DIR": d, "VHARN_STORE_FLUSH": "0"})
+        shutil.rmtree(d, ignore_errors=True)
+        os.makedirs(d, exist_ok=True)
+        fl = vlib.run_lines(vlib.VHARN, ["fn"], lines, timeout=tmo, env={"VHARN_STORE_DIR": d, "VHARN_STORE_FLUSH": "1"})
     finally:
         shutil.rmtree(d, ignore_errors=True)
+    impl = [a if a == b else f"{a} FLUSH={(b or '').replace(' ', '_')}" for a, b in zip(impl, fl)]
     model = vlib.run_lines(vlib.MODEL_RUN, [], lines, timeout=tmo) if model_ok else [None] * len(lines)
     return impl, model
 
